@@ -196,36 +196,41 @@ theorem blob_backslash_quote_regression :
     parseBlobText (displayBlob [92, 120, 52, 49, 39, 0]) = .ok [92, 120, 52, 49, 39, 0] := by
   decide
 
-/-! ### intervals and timestamps: FULL statements are false (sub-second parts) -/
+/-! ### intervals (full statement, after fix 2c03e9c) and timestamps -/
 
 /-- FULL statement: every interval (i32 fields) survives Display + FromStr. -/
 def IntervalRoundtripFull : Prop :=
   ∀ m d ms : Int, inI32 m = true → inI32 d = true → inI32 ms = true →
     parseInterval (displayInterval m d ms) = .ok (m, d, ms)
 
-/-- witness: 1 ms prints as the empty string and parses back as the zero interval
-(known finding `roundtrip:interval:subsecond`) -/
-theorem interval_roundtrip_unsound : ¬ IntervalRoundtripFull := by
+/-- PROVED in full since Display prints the millisecond part and `from_str` takes the unit
+(negative fields, zero fields, singular/plural units, any i32 magnitude: no overflow panic on
+the way back). -/
+theorem interval_roundtrip : IntervalRoundtripFull :=
+  fun m d ms hm hd hms => parseInterval_displayInterval m d ms hm hd hms
+
+/-- the OLD Display (whole seconds only: the text of `ms - ms % 1000`) lost the sub-second part:
+the former witness of `interval_roundtrip_unsound`, kept as a statement about the old writer … -/
+theorem interval_old_display_unsound :
+    ¬ (∀ m d ms : Int, inI32 m = true → inI32 d = true → inI32 ms = true →
+        parseInterval (displayInterval m d (ms - Int.tmod ms 1000)) = .ok (m, d, ms)) := by
   intro h
   have := h 0 0 1 (by decide) (by decide) (by decide)
   revert this
   decide
 
-/-- PROVED PART: every interval with i32 fields and a whole number of seconds
-(`ms % 1000 = 0`) survives Display + FromStr (negative fields, zero fields, singular/plural
-units, any i32 magnitude: no overflow panic on the way back). -/
-theorem interval_roundtrip_partial (m d ms : Int) (hm : inI32 m = true) (hd : inI32 d = true)
-    (hms : inI32 ms = true) (hsec : ms % 1000 = 0) :
-    parseInterval (displayInterval m d ms) = .ok (m, d, ms) :=
-  parseInterval_displayInterval m d ms hm hd hms hsec
+/-- … and as a regression statement about the new one (finding `roundtrip:interval:subsecond`) -/
+theorem interval_subsecond_regression :
+    parseInterval (displayInterval 0 0 1) = .ok (0, 0, 1) ∧
+    parseInterval (displayInterval 0 0 (-1500)) = .ok (0, 0, -1500) ∧
+    displayInterval 0 0 1 = [49, 32, 109, 105, 108, 108, 105, 115, 101, 99, 111, 110, 100] := by
+  decide
 
-example : parseInterval (displayInterval (-2147483648) 2147483647 (-2147483000)) =
-    .ok (-2147483648, 2147483647, -2147483000) :=
-  interval_roundtrip_partial _ _ _ (by decide) (by decide) (by decide) (by decide)
+example : parseInterval (displayInterval (-2147483648) 2147483647 (-2147483647)) =
+    .ok (-2147483648, 2147483647, -2147483647) :=
+  interval_roundtrip _ _ _ (by decide) (by decide) (by decide)
 
 example : parseInterval (displayInterval 14 3 14706000) = .ok (14, 3, 14706000) := by decide
-example : parseInterval (displayInterval (-14) (-3) (-14706000)) = .ok (-14, -3, -14706000) := by decide
-example : parseInterval (displayInterval 0 0 1500) = .ok (0, 0, 1000) := by decide
 
 /-- FULL statement: every timestamp that can be printed parses back to itself. -/
 def TimestampRoundtripFull : Prop :=
